@@ -114,6 +114,44 @@ def witnesses(gs, which):
     return W
 
 
+def refine_equality_path(path, st, nin, n, meta, cons):
+    """None when the identity holds on this equality-guarded path both exactly (after substituting the equalities) and, to 1e-10 relative, on its
+    floating-point neighbourhood; otherwise the reason"""
+    sigma = poly.equality_substitution(path["eqs"], cons)
+    if sigma is None:
+        return "the path is guarded by an exact equality test whose consequences are outside the analysis"
+    pairs = []
+    for c in range(n):
+        a, b = st.get((nin, c * 8)), st.get((nin + 1, c * 8))
+        if meta["ident"]:
+            dim = int(round(n ** 0.5))
+            want = poly.RF.const(1 if (c % dim) == (c // dim) else 0)
+            pairs += [(a, want), (b, want)]
+        else:
+            pairs.append((a, b))
+    for a, b in pairs:
+        if not poly.rf_equal(poly.rf_subst(a, sigma), poly.rf_subst(b, sigma), cons):
+            return "it also fails exactly where the equality test of the path holds (%s)" % ", ".join("%s = %s" % kv for kv in sorted(sigma.items()))
+    variables = set()
+    for a, b in pairs:
+        for r in (a, b):
+            variables |= poly.p_vars(r.n) | poly.p_vars(r.d)
+    point = poly.float_witness(sigma, path["eqs"], cons, variables)
+    if point is None:
+        return "no floating-point witness could be constructed for the equality-guarded path"
+    worst = 0.0
+    for a, b in pairs:
+        va, vb = poly.rf_value(a, point), poly.rf_value(b, point)
+        if va is None or vb is None:
+            return "the two sides cannot be evaluated at the floating-point witness of the equality-guarded path"
+        err = abs(va - vb) / max(1, abs(vb))
+        worst = max(worst, float(err))
+    if worst > 1e-10:
+        return ("the path is taken whenever the tested quantity *rounds* to the constant (%s): at such an input (the other coordinates of the unit tuple about 1e-8) "
+                "the two sides differ by %.1e relative, far above rounding" % (", ".join("%s == %s" % kv for kv in sorted(sigma.items()) if kv[1] != 0), worst))
+    return None
+
+
 def check_identities(rep, tier, which, W=None, rule=None, minimum=None, desc=None):
     rule = rule or ("A." + which)
     gs = [g for g in groups.catalogue("quick")] + [g for g in groups.catalogue("thorough") if g.key in ("B_commutative", "SE_3_3d")]
@@ -174,6 +212,15 @@ def check_identities(rep, tier, which, W=None, rule=None, minimum=None, desc=Non
                         c, poly.p_show(an.n), "" if poly.p_is_const(an.d) else " / (%s)" % poly.p_show(an.d, 3),
                         poly.p_show(on.n), "" if poly.p_is_const(on.d) else " / (%s)" % poly.p_show(on.d, 3)), path)
                     break
+            if bad and path.get("eqs"):
+                # the path is taken only when an exact floating-point equality holds (a fast path such as `q_w == 1`): in exact arithmetic the
+                # equality may make the identity true (then the symbolic mismatch above is an artefact); in floating point the same path is taken on
+                # a whole neighbourhood of the equality set, where the identity must still hold to working accuracy
+                verdict = refine_equality_path(path, st, nin, n, meta, cons)
+                if verdict is None:
+                    bad = None
+                    continue
+                bad = (bad[0] + "; " + verdict, path)
             if bad:
                 break
         rep.instance(rule, g.ctype, meta["name"], ok=bad is None,
@@ -186,26 +233,32 @@ def check_identities(rep, tier, which, W=None, rule=None, minimum=None, desc=Non
 
 
 def check_bracket_ast(rep):
+    """A.bracket: LieGroupBase::lie_bracket, abstractly executed (engine M) on opaque tangents: the result is the term ad(a) * b, and the zero tangent for
+    commutative groups.  (For Dof >= 8 Eigen evaluates ad(a) * b through its run-time gemv kernel, outside the polynomial domain; for smaller groups the
+    polynomial witnesses decide the value.)"""
     import astlib as A
-    rep.rule("A.bracket", "LieGroupBase::lie_bracket(a, b) is ad(a) * b (zero for commutative groups)", minimum=1)
+    import mach
+    from mmodels import Term
+    rep.rule("A.bracket", "LieGroupBase::lie_bracket(a, b), abstractly executed on opaque tangents, is ad(a) * b (zero for commutative groups)", minimum=2)
     idx = A.index(fe.ast_dump("LieGroupBase"))
     fns = [d for d in idx if d.kind in A.FUNCS and d.pattern and d.qname.endswith("LieGroupBase::lie_bracket") and A.body(d.node) is not None]
     if len(fns) != 1:
         rep.broke("A.bracket: LieGroupBase::lie_bracket not found")
         return
     d = fns[0]
-    ifs = [x for x in A.kids(A.body(d.node)) if x.get("kind") == "IfStmt"]
-    ok = False
-    if len(ifs) == 1:
-        ks = A.kids(ifs[0])
-        c = A.ntext(ks[0])
-        r1 = [x for x in A.walk_nolambda(ks[1]) if x.get("kind") == "ReturnStmt"]
-        r2 = [x for x in A.walk_nolambda(ks[2]) if x.get("kind") == "ReturnStmt"] if len(ks) > 2 else []
-        if c == "IsCommutative" and len(r1) == 1 and len(r2) == 1:
-            e2 = A.to_expr(A.kids(r2[0])[0])
-            pa = [p.get("name") for p in A.params(d.node)]
-            ok = (A.ntext(A.kids(r1[0])[0]) == "Tangent::Zero()" and e2[0] == "op" and e2[1] == "*" and e2[2][0] == "call"
-                  and str(e2[2][1]).split("::")[-1] == "ad" and e2[2][2] == [("ref", pa[0], e2[2][2][0][2])] and e2[3][0] == "ref" and e2[3][1] == pa[1])
-    rep.instance("A.bracket", "LieGroupBase::lie_bracket", "definition", ok=ok, sample={"file": fe.rel(d.file), "line": d.line})
-    if not ok:
-        rep.violation(Finding("A.bracket", "LieGroupBase::lie_bracket", "definition", "lie_bracket(a, b) is not `IsCommutative ? 0 : ad(a) * b`", d.file, d.line))
+    for comm in (False, True):
+        M = mach.Machine(funcs={"ad": mach.PyFunc(lambda M_, v: Term("ad(%s)" % mach.show_val(v[0]))), "Zero": mach.PyFunc(lambda M_, v: Term("0")),
+                                "method:Zero": mach.PyFunc(lambda M_, o, a, t, env: Term("0"), lazy=True)})
+        M.global_env = mach.Env()
+        M.global_env.bind("IsCommutative", mach.Cell(comm))
+        try:
+            r = M.run_function(d, [mach.Cell(Term("a")), mach.Cell(Term("b"))])
+        except (mach.Unab, mach.AbstractViolation) as ex:
+            rep.broke("A.bracket: lie_bracket is outside the abstract machine: %s" % ex)
+            return
+        want = "0" if comm else "(ad(a) * b)"
+        ok = isinstance(r, Term) and r.name == want
+        rep.instance("A.bracket", "LieGroupBase::lie_bracket", "commutative" if comm else "non-commutative", ok=ok, sample={"file": fe.rel(d.file), "line": d.line, "value": mach.show_val(r)})
+        if not ok:
+            rep.violation(Finding("A.bracket", "LieGroupBase::lie_bracket", "definition", "lie_bracket(a, b) evaluates to %s for a %s group; the bracket is %s"
+                                  % (mach.show_val(r), "commutative" if comm else "non-commutative", want), d.file, d.line))
